@@ -8,6 +8,8 @@
 package main
 
 import (
+	"os"
+	"encoding/json"
 	"bytes"
 	"fmt"
 	"sort"
@@ -223,9 +225,27 @@ func checkLayout(l layout, withKeys bool, out *shard.Out) {
 					for _, f := range s.Long[ci] {
 						if f == fi {
 							assigned = true
-							// the documented placeholder: a sole long flip 0 for a candidate without any author
-							if fi == 0 && len(s.Long[ci]) == 1 && len(s.AuthorsPerCandidate[ci]) == 0 {
-								placeholder = true
+							// the placeholder of the statement: a sole long flip 0 for a candidate whose long list
+							// would otherwise be empty, i.e. every flip of every one of its authors is already in
+							// its short list (or it has no author at all)
+							if fi == 0 && len(s.Long[ci]) == 1 {
+								inShort := map[int]bool{}
+								for _, f := range s.Short[ci] {
+									inShort[f] = true
+								}
+								isAuthor := map[int]bool{}
+								for _, a := range s.AuthorsPerCandidate[ci] {
+									isAuthor[a] = true
+								}
+								wouldBeEmpty := true
+								for fj, c2 := range s.Flips {
+									if isAuthor[idx[s.FlipAuthor[string(c2)]]] && !inShort[fj] {
+										wouldBeEmpty = false
+									}
+								}
+								if wouldBeEmpty {
+									placeholder = true
+								}
 							}
 						}
 					}
@@ -235,7 +255,7 @@ func checkLayout(l layout, withKeys bool, out *shard.Out) {
 					continue
 				}
 				if assigned && !rec[ci] {
-					fail("assigned-but-not-recipient", fmt.Sprintf("shard %d: candidate %d is assigned flip %d of author %d but is not among the author's key recipients %v", sid, ci, fi, ai, s.CandidatesPerAuthor[ai]))
+					fail("assigned-but-not-recipient", fmt.Sprintf("shard %d: candidate %d is assigned flip %d of author %d but is not among the author's key recipients %v (candidate's short list %v, long list %v, its authors %v)", sid, ci, fi, ai, s.CandidatesPerAuthor[ai], s.Short[ci], s.Long[ci], s.AuthorsPerCandidate[ci]))
 					return
 				}
 				if !assigned && rec[ci] {
@@ -371,6 +391,31 @@ func layouts(thorough bool) (small []layout, big []layout) {
 			}
 		}
 	}
+	// several shards with more than 7 authors each (the second author round is reached in every
+	// shard; shards are walked in map order, which the reversed-order run turns around)
+	for seed := 0; seed < seeds; seed++ {
+		masks := func(c int) []int { return []int{1<<uint(c) - 1, 1<<8 - 1, (1<<uint(c) - 1) &^ 0x24} }
+		for _, c1 := range []int{9, 12} {
+			for _, c2 := range []int{9, 13} {
+				for _, m1 := range masks(c1) {
+					for _, m2 := range masks(c2) {
+						for _, f := range []int{1, 3} {
+							small = append(small, layout{2, []int{c1, c2}, []int{m1, m2}, f, seed})
+						}
+					}
+				}
+			}
+		}
+		for _, c := range []int{9, 10, 11, 12, 13} { // single shards of the same shapes (reference for the multi-shard ones)
+			for _, m := range masks(c) {
+				for _, f := range []int{1, 3} {
+					small = append(small, layout{1, []int{c}, []int{m}, f, seed})
+				}
+			}
+		}
+		small = append(small, layout{3, []int{9, 10, 11}, []int{1<<9 - 1, 1<<10 - 1, 1<<11 - 1}, 2, seed},
+			layout{3, []int{12, 3, 9}, []int{1<<12 - 1, 5, 1<<9 - 1}, 2, seed})
+	}
 	sizes := []int{10, 11, 12, 13, 14, 15, 20, 30, 40}
 	if thorough {
 		for c := 10; c <= 40; c++ {
@@ -397,6 +442,26 @@ func main() {
 	run := report.New("C16")
 	run.SetBudget(5*60e9, 20*60e9)
 	small, big := layouts(run.Thorough())
+	if run.Replay != "" {
+		// re-run exactly the recorded layout
+		var f struct {
+			Replay layout `json:"replay"`
+		}
+		b, err := os.ReadFile(run.Replay)
+		if err != nil || json.Unmarshal(b, &f) != nil || f.Replay.Shards == 0 {
+			report.HarnessError("cannot read replay file %s", run.Replay)
+		}
+		out := &shard.Out{Cnt: map[string]int{}, Outc: map[string]int{}}
+		checkLayout(f.Replay, true, out)
+		for _, v := range out.Viol {
+			fmt.Printf("REPRODUCED key=%s\n  %s\n", v.Key, v.What)
+		}
+		if len(out.Viol) == 0 {
+			fmt.Println("replay finished without violation")
+			os.Exit(0)
+		}
+		os.Exit(1)
+	}
 	shard.Run(run, 0, nil, func(s shard.Info, out *shard.Out) {
 		for i, l := range small {
 			if !s.Mine(i) {
